@@ -359,21 +359,86 @@ fn f5() -> Vec<Case> {
 fn f6() -> Vec<Case> {
     let mut out = Vec::new();
     for with_finally_local in [false, true] {
-        for exit in 0..3 {
+        for exit in 0..4 {
             let mut tb = vec![var_stmt("a", num(1.0)), var_stmt("b", num(2.0)), expr_stmt(invoke(var("keep"), "push", vec![lambda_block(&[], vec![expr_stmt(assign("a", bin(BinOp::Add, var("a"), num(1.0)))), st(StmtKind::Return(Some(bin(BinOp::Add, var("a"), var("b")))))])]))];
             match exit {
-                0 => tb.push(st(StmtKind::Throw(s("x")))),
+                0 | 3 => tb.push(st(StmtKind::Throw(s("x")))),
                 1 => tb.push(st(StmtKind::Return(Some(num(0.0))))),
                 _ => {}
             }
             let fin = if with_finally_local { vec![var_stmt("z", num(99.0)), var_stmt("y", num(98.0)), print_stmt(bin(BinOp::Add, var("z"), var("y")))] } else { vec![print_stmt(s("fin"))] };
-            // a finally block that declares locals on the exception path is a listed C08 finding: keep
-            // this family on the paths where the finally block is entered normally or by return
+            // exit 0: caught by the statement's own catch; exit 3: the exception passes through the finally
+            // block (which may declare locals) and is caught by the caller
             let catch = if exit == 0 { Some(("e".to_string(), vec![print_stmt(var("e"))])) } else { None };
             let body = vec![st(StmtKind::Try(tb, catch, Some(fin))), var_stmt("later", num(7.0)), print_stmt(var("later"))];
-            let main = vec![var_stmt("keep", Expr::VecLit(vec![])), fn_stmt(func("f", &[], body)), expr_stmt(call(var("f"), vec![])), print_stmt(call(index(var("keep"), num(0.0)), vec![])), print_stmt(call(index(var("keep"), num(0.0)), vec![]))];
+            let call_f = if exit == 3 { st(StmtKind::Try(vec![expr_stmt(call(var("f"), vec![]))], Some(("e".to_string(), vec![print_stmt(var("e"))])), None)) } else { expr_stmt(call(var("f"), vec![])) };
+            let main = vec![var_stmt("keep", Expr::VecLit(vec![])), fn_stmt(func("f", &[], body)), call_f, print_stmt(call(index(var("keep"), num(0.0)), vec![])), print_stmt(call(index(var("keep"), num(0.0)), vec![]))];
             out.push(wrapable("F6_try_body_captures", main));
         }
+    }
+    out
+}
+
+/// F7: capture order.  Three variables declared in order; up to three closures, each with an ordered
+/// capture list (every non-empty sequence of distinct variables: 15 lists), created one after the other
+/// while all variables are live; the order in which a closure first mentions its variables is the order
+/// of its list, so captures happen in every order relative to declaration order and to the captures
+/// of the closures made before.
+fn f7(thorough: bool) -> Vec<Case> {
+    let names = ["a", "b", "c"];
+    let mut lists: Vec<Vec<usize>> = Vec::new();
+    for x in 0..3 {
+        lists.push(vec![x]);
+        for y in 0..3 {
+            if y != x {
+                lists.push(vec![x, y]);
+                for z in 0..3 {
+                    if z != x && z != y {
+                        lists.push(vec![x, y, z]);
+                    }
+                }
+            }
+        }
+    }
+    let mut seqs: Vec<Vec<usize>> = Vec::new();
+    for i in 0..lists.len() {
+        seqs.push(vec![i]);
+        for j in 0..lists.len() {
+            seqs.push(vec![i, j]);
+            for k in 0..lists.len() {
+                // quick: the third closure captures a single variable or a pair
+                if thorough || lists[k].len() <= 2 {
+                    seqs.push(vec![i, j, k]);
+                }
+            }
+        }
+    }
+    let mut out = Vec::new();
+    for seq in seqs {
+        let mut body: Vec<Stmt> = vec![var_stmt("a", num(1.0)), var_stmt("b", num(2.0)), var_stmt("c", num(3.0))];
+        for (k, li) in seq.iter().enumerate() {
+            let list = &lists[*li];
+            let mut stmts = Vec::new();
+            for v in list {
+                stmts.push(expr_stmt(assign(names[*v], bin(BinOp::Add, var(names[*v]), num(10f64.powi(k as i32 + 1))))));
+            }
+            let mut sum = var(names[list[0]]);
+            for v in &list[1..] {
+                sum = bin(BinOp::Add, sum, var(names[*v]));
+            }
+            stmts.push(st(StmtKind::Return(Some(sum))));
+            body.push(expr_stmt(invoke(var("keep"), "push", vec![lambda_block(&[], stmts)])));
+        }
+        // inside the scope the closures and the declaring function share the variables
+        body.push(print_stmt(call(index(var("keep"), num(0.0)), vec![])));
+        body.push(expr_stmt(assign("b", bin(BinOp::Add, var("b"), num(5000.0)))));
+        body.push(pr("abc", Expr::VecLit(vec![var("a"), var("b"), var("c")])));
+        let mut main = vec![var_stmt("keep", Expr::VecLit(vec![]))];
+        main.push(fn_stmt(func("mk", &[], body)));
+        main.push(expr_stmt(call(var("mk"), vec![])));
+        main.push(st(StmtKind::For("f".into(), var("keep"), vec![print_stmt(call(var("f"), vec![]))])));
+        main.push(st(StmtKind::For("f".into(), var("keep"), vec![print_stmt(call(var("f"), vec![]))])));
+        out.push(wrapable("F7_capture_order", main));
     }
     out
 }
@@ -398,6 +463,7 @@ pub fn cases_for_c04(thorough: bool) -> Vec<Case> {
     v.extend(f3());
     v.extend(f5());
     v.extend(f6());
+    v.extend(f7(false).into_iter().enumerate().filter(|(i, _)| thorough || i % 8 == 0).map(|(_, c)| c));
     v
 }
 
@@ -410,6 +476,7 @@ pub fn run(ctx: &Ctx) -> Report {
     base.extend(f3());
     base.extend(f5());
     base.extend(f6());
+    base.extend(f7(thorough));
     let mut all: Vec<Case> = Vec::new();
     for (i, c) in base.iter().enumerate() {
         // every program in the thorough tier, every fourth in the quick tier, is also run in its wrappings
@@ -428,7 +495,7 @@ pub fn run(ctx: &Ctx) -> Report {
     mcheck::fill_report(
         &mut report,
         &stats,
-        "F1: every combination of scope kind (block, function, lambda, method, while body, for body, try body) x exit (fall through, return, break, continue, throw) x two closures with every read/write action over two variables, created through 0-2 intermediate function levels, called inside the scope, escaped, and called in several orders after the scope has exited; F2: fresh variables per iteration/activation; F3: shadowing at depth 1-3 with a closure and a write at every level; F4: textual resolution and late-bound globals; F5: 1-3 closures over 1-3 shared variables, slot reuse. Each program also runs wrapped in a block, a function and a fiber. non-trivial = at least three observations printed.",
+        "F1: every combination of scope kind (block, function, lambda, method, while body, for body, try body) x exit (fall through, return, break, continue, throw) x two closures with every read/write action over two variables, created through 0-2 intermediate function levels, called inside the scope, escaped, and called in several orders after the scope has exited; F2: fresh variables per iteration/activation; F3: shadowing at depth 1-3 with a closure and a write at every level; F4: textual resolution and late-bound globals; F5: 1-3 closures over 1-3 shared variables, slot reuse; F6: captures of a try body left by exception or return; F7: capture order - three variables, up to three closures each with every ordered capture list (15 lists), so captures happen in every order relative to declaration order and to earlier captures. Each program also runs wrapped in a block, a function and a fiber. non-trivial = at least three observations printed.",
         json!({"closures": 2, "variables": 2, "intermediate_levels": if thorough { 3 } else { 2 }, "wrappings": 3}),
     );
     report.assumptions = vec!["M-eval's cell-based environments define the intended semantics (DESIGN.md Appendix A)".into()];
